@@ -122,6 +122,9 @@ def configs(tier):
         for genome in ("hg19", "hg38"):
             c.append({"gene": g, "genome": genome, "cn": cn, "major": mj,
                       "mode": "readout", "phase": None})
+    # two enumerated points (max_minor_solutions = 2): each becomes its own solution
+    c.append({"gene": "toy", "genome": "hg19", "cn": ["1", "1"], "major": {"1": 2},
+              "mode": "readout2", "phase": None})
     # phase configurations (concrete fragment patterns over catalogued sites)
     for genome in ("hg19", "hg38"):
         c.append({"gene": "toy", "genome": genome, "cn": ["1", "1"],
@@ -258,6 +261,8 @@ def run_readout(cfg):
                                                                for k, v in major.items())
     state = {}
 
+    two = cfg["mode"] == "readout2"
+
     def bound(model):
         drop, add = [], []
         for c in copies:
@@ -269,15 +274,32 @@ def run_readout(cfg):
                     drop.append(z3.If(z3.And(va.zv, z3.Not(k.zv)), 1, 0))
                 if n is not None:
                     add.append(z3.If(n.zv, 1, 0))
-        return [z3.Sum(drop or [z3.IntVal(0)]) <= 1, z3.Sum(add or [z3.IntVal(0)]) <= 1]
+        return [z3.Sum(drop or [z3.IntVal(0)]) <= (0 if two else 1),
+                z3.Sum(add or [z3.IntVal(0)]) <= 1]
 
     saved_max = minor.__dict__.get("max")
     minor.max = symx.smax
 
     def run():
         aldy.common.json.clear()
-        with symx.install(oracle=symx.PointOracle(eng, bound)) as inst:
-            r = minor.estimate_minor(gene, cov, [msol], "z3")
+        oracle = symx.PointOracle(eng, bound, points=2 if two else 1)
+        with symx.install(oracle=oracle) as inst:
+            ys = []
+            state["ys"] = ys
+            if two:
+                orig = inst.cls.solutions
+
+                def recording(self, *a, **k):
+                    if len(a) > 1 or k:
+                        yield from orig(self, *a, **k)
+                        return
+                    for y in orig(self, *a, **k):
+                        ys.append(y)
+                        yield y
+
+                inst.cls.solutions = recording
+            r = minor.estimate_minor(gene, cov, [msol], "z3", **(
+                {"max_solutions": 2} if two else {}))
             state["m"] = inst.models[-1] if inst.models else None
             return r
 
@@ -286,6 +308,24 @@ def run_readout(cfg):
         for dec, pc, sols in eng.explore(run, base, max_paths=100000):
             m = state["m"]
             if m is None or not sols:
+                continue
+            if two:
+                # every yielded point becomes its own solution: as many allele copies as
+                # the structure has, no list shared between solutions, at most one solution
+                # per yielded point
+                ncop = sum(major.values())
+                good = (1 <= len(sols) <= len(state["ys"])
+                        and all(len(s_.solution) == ncop for s_ in sols)
+                        and len({id(s_.solution) for s_ in sols}) == len(sols)
+                        and all(sorted(i for h in s_.get_diplotype() for i in h if i != -1)
+                                == list(range(ncop)) for s_ in sols))
+                ob(res, f"{tag}: two enumerated points give separate, complete solutions",
+                   "holds" if good else "sat")
+                if not good and not res["violations"]:
+                    res["violations"].append({
+                        "what": f"{tag}: {len(state['ys'])} enumerated points are read out "
+                                f"as {[x._solution_nice() for x in sols]}",
+                        "key": "readout2", "replay": {"kind": "none2"}})
                 continue
             st, mdl = eng.satisfiable([])
             if st != "sat":
@@ -353,7 +393,7 @@ def run_config(cfg):
     if cfg.get("kind") == "minor":
         import c15
         return c15.run_minor(cfg)
-    if cfg["mode"] == "readout":
+    if cfg["mode"] in ("readout", "readout2"):
         return run_readout(cfg)
     res = new_result(cfg)
     gene = gengene.load(cfg["gene"], cfg["genome"])
@@ -1049,6 +1089,8 @@ def replay(o):
     if o.get("kind") == "counts":
         import c15
         return c15.replay_counts(o)
+    if o.get("kind") == "none2":
+        return True, "observed on the real read-out loop with a two-point solver stub"
     gene = gengene.load(o["gene"], o["genome"])
     counts = c02.concrete_counts(gene, o)
     profile = Profile("replay")
